@@ -529,6 +529,11 @@ def add_mutations(rng, c, profile):
                         "reject" if _fs_binds(c, scheme, [i for i, _, _ in op["qs"]]) else "reject?", "tiny_code")
         else:
             nkeys = len(set((k, tuple(c.fields["pt.%d" % pj])) for k, _, pj in op["lqs"]))
+            if profile in ("c02",):
+                # a changed claim at every (combination, point) position (capped): the same combination queried at several
+                # points must be compared at each of them
+                for kk in rng.sample(range(nkeys), min(nkeys, 6)):
+                    put(t, "value", [kk, rng.choice([1, rf_nz(rng, p)])], "reject")
             if profile in ("c06",):
                 put(t, "value", [rng.randrange(nkeys), rf_nz(rng, p)], "reject")
                 k = rng.choice(sorted(set(k for k, _, _ in op["lqs"])))
@@ -540,6 +545,10 @@ def add_mutations(rng, c, profile):
                 put(t, "evals", [0, rf_nz(rng, p)], "reject")
     c.meta["muts"] = muts
     return c
+
+
+_INJ_COUNT = {}
+_INJ_TURN = {}
 
 
 def inject_bound_violation(rng, c):
@@ -563,8 +572,13 @@ def inject_bound_violation(rng, c):
         kinds.append("deg_gt_supported")
     else:
         kinds += ["deg_gt_bound_ipa", "bound_gt_supported_ipa", "deg_gt_supported"]
-    kind = rng.choice(kinds)
-    top = lambda length: [rf_uniform(rng, p) for _ in range(length)]
+    # the kinds of refusal are swept per scheme, not left to chance: every kind comes up within len(kinds) injections
+    # (the feasible kind used least so far in this run of the generator)
+    if scheme == "ipa" and eff_s < 2:
+        kinds.remove("deg_gt_bound_ipa")
+    kind = min(kinds, key=lambda k: (_INJ_COUNT.get((scheme, k), 0), kinds.index(k)))
+    _INJ_COUNT[(scheme, kind)] = _INJ_COUNT.get((scheme, kind), 0) + 1
+    top = lambda length: [rf_uniform(rng, p) for _ in range(length - 1)] + [rf_nz(rng, p)]
     if kind == "deg_gt_bound":
         b = rng.choice([b for b in bl if b + 1 <= s])
         c.set("poly.%d" % i, top(b + 2)).set("bound.%d" % i, b)
@@ -741,6 +755,8 @@ def gen(rng, tier, profile, count, schemes=ALL):
                     break
             cases.append(c)
         return cases
+    _INJ_COUNT.clear()
+    _INJ_TURN.clear()
     if profile == "c04":
         schemes = ("marlin", "sonic", "ipa")
     if profile == "c07":
@@ -756,10 +772,12 @@ def gen(rng, tier, profile, count, schemes=ALL):
             grid = [(a, b) for a in range(1, gmax + 1) for b in range(1, gmax + 1)]
             opts = {"pst_grid": grid[k % len(grid)] if tier != "quick" else rng.choice(grid), "hiding_p": 0.5, "n": rng.randint(1, 2)}
         c = make_case(rng, cid, scheme, tier, opts)
-        if profile == "c04" and rng.random() < 0.3:
-            inject_bound_violation(rng, c)
-        if profile == "c17" and scheme in ("marlin", "sonic", "ipa") and rng.random() < 0.5:
-            inject_bound_violation(rng, c)
+        if profile in ("c04", "c17") and scheme in ("marlin", "sonic", "ipa"):
+            # every third (C04) / every second (C17) scenario of a scheme carries a request the committer must refuse
+            turn = _INJ_TURN.get(scheme, 0)
+            _INJ_TURN[scheme] = turn + 1
+            if turn % (3 if profile == "c04" else 2) == 1:
+                inject_bound_violation(rng, c)
         if profile == "c07":
             c.set("c07", 1)
         if profile == "c12":
@@ -777,6 +795,9 @@ def gen(rng, tier, profile, count, schemes=ALL):
             add_history(rng, c, kinds=("batch", "batch", "single"), perms=True)
         elif profile == "c12":
             add_history(rng, c, kinds=("single", "batch", "lc"), nops=3, lc_opts={"shared_values": False})
+        elif profile == "c02":
+            # single check, batch_check and check_combinations (the property names all three)
+            add_history(rng, c, kinds=("single", "batch", "lc"), nops=rng.randint(2, 3))
         else:
             add_history(rng, c, kinds=("single", "batch"))
         add_mutations(rng, c, "c02" if profile == "c15" else profile)
